@@ -27,7 +27,7 @@ def correspondence(ctx):
     decided over Q) vs a five-point finite-difference Jacobian of the real `Integrator.step`."""
     from . import integ_corr
 
-    integ_corr.jacobian_cases(ctx, common.rng_for(ctx, 1), ctx.n(24, 200))
+    integ_corr.jacobian_cases(ctx, common.rng_for(ctx, 1), ctx.n(40, 300))
 
 
 # ---------------------------------------------------------------------------------------
@@ -199,6 +199,10 @@ def run(ctx: common.Ctx):
         "iterative solvers run with tightened tolerances (1e-13 / 1e-12) so that solver noise stays below the tolerance",
         "constrained: tangent space of T*M from the analytic constraint Jacobian / Hessian of the polynomial constraints",
     ]
+    from . import integ_corr
+    import sys
+
+    integ_corr.replay_corpus(ctx, sys.modules[__name__])
     correspondence(ctx)
     direct_oracles(ctx)
 
@@ -213,6 +217,28 @@ def replay(ctx, obj):  # noqa: ARG001
         return True
 
 
-LEVEL_TEXT = "PLACEHOLDER (rewritten by the Lean-side author): direct oracles on the real integrators, see module docstring."
-LEVEL_NOTE = "PLACEHOLDER (rewritten by the Lean-side author)."
-TECHNIQUE = "PLACEHOLDER: Lean 4 theorems (symplectic group closure) + finite-difference symplecticity oracle on the real code"
+LEVEL_TEXT = (
+    "Lean 4 proof with Mathlib's Matrix.symplecticGroup: the Jacobians of h1_flow (kick, symmetric Hessian), Euclidean "
+    'h2_flow (drift, symmetric metric inverse) and Gaussian-split h2_flow (orthogonal Q, cos^2+sin^2=1, non-zero omega) are '
+    'symplectic (kickJac_mem, driftJac_mem, harmonicJac_mem); any product of them is, with determinant 1 '
+    '(elementary_prod_mem, elementary_prod_det); the tangent lift of ANY composition step (any coefficients, any free list, '
+    'both initial flows, leapfrog, any number of steps in either direction) projects onto the base step and carries a '
+    'symplectic matrix (symComp_jac_mem, mkSymComp_jac_mem, leapfrog_jac_mem, steps_jac_mem, steps_jac_det); for linear '
+    'systems the lifted matrix is exactly the derivative of the step (symComp_lift_exact). Implicit midpoint on quadratic '
+    'Hamiltonians is the Cayley transform and symplectic (cayley_mem, implicitMidpoint_mem, implicitMidpoint_linear); the '
+    'generalised leapfrog on quadratic h2 is symplectic (sympEuler_mem, sympEulerAdj_mem, genLeapfrog_mem); constrained '
+    'leapfrog with LINEAR constraints preserves the symplectic form restricted to the tangent bundle of the cotangent '
+    "bundle for any number of inner steps (conLeapfrog_presymp_linear). Tie: the model's propagated Jacobian over Q (whose "
+    'exact symplecticity D J D^T = J is additionally decided over Q for every Euclidean case) vs a five-point finite- '
+    'difference Jacobian of the real Integrator.step on cubic/quartic targets, 4 metric types, Euclidean and Gaussian-split '
+    'systems. Direct oracle: finite-difference symplecticity residual and det J of the real step for all integrators incl. '
+    'implicit ones on Riemannian systems and constrained leapfrog on curved manifolds (form restricted to T(T*M)).'
+)
+LEVEL_NOTE = (
+    'Trusted: Lean kernel + Mathlib (symplectic group, det_eq_one), axioms {propext, Classical.choice, Quot.sound}; chain '
+    'rule identifying the product of per-flow Jacobians with the Jacobian of the composed step for non-polynomial/non-linear '
+    'targets (for linear systems proved: symComp_lift_exact; for polynomial targets tied numerically by the correspondence). '
+    'PARTIAL: curved constraint manifolds and non-quadratic implicit steps are covered by the finite-difference oracle only '
+    '(tolerance 1e-6), not by a theorem. Symmetry of Hessians / metric is a hypothesis.'
+)
+TECHNIQUE = "Lean 4 theorems over Mathlib's symplectic group + exact propagated Jacobian vs finite-difference Jacobian of the real step + finite-difference symplecticity oracle"
